@@ -212,8 +212,14 @@ def r3_grow(ctx):
                     wrong_mask = d
         for op, x, y, S2 in cmp_facts(g, inplace[0].block):
             t = (sh(x) + " " + sh(y)).replace(" ", "")
-            if "align(new_layout)" in t and ("align(old_layout)" in t or "addr(" in t):
+            if "align(new_layout)" in t and "align(old_layout)" in t:
                 tested = True
+            elif "align(new_layout)" in t and "addr(" in t:
+                # (the same address test reached as a comparison fact - e.g. through a named `aligned` - is held to the same mask)
+                if re.search(r"BitAnd\(addr\([^)]*\)\)?,Sub\(align\(new_layout\),1\)\)", t) or re.search(r"Rem\(addr\(.*\),align\(new_layout\)\)", t):
+                    tested = True
+                else:
+                    wrong_mask = wrong_mask or t
         if tested:
             ctx.ok("grow|in-place|alignment", g.where(inplace[0].block), "in place only when the block's address fits new_layout.align()")
         elif wrong_mask:
